@@ -43,6 +43,8 @@ type Extractor struct {
 	resolver        func(core.IndirectRef) (core.Object, error) // Reference resolver
 	xobjectDepth    int                                         // Current XObject nesting depth
 	maxXObjectDepth int                                         // Maximum nesting depth (prevents infinite recursion)
+	xobjectCalls    int                                         // Form XObjects executed during the current extraction
+	maxXObjectCalls int                                         // Maximum number of Form XObject executions per extraction
 }
 
 // NewExtractor creates a new text extractor with initialized graphics state.
@@ -52,6 +54,9 @@ func NewExtractor() *Extractor {
 		fonts:           make(map[string]*font.Font),
 		fragments:       make([]TextFragment, 0),
 		maxXObjectDepth: 10, // Reasonable limit for nested XObjects
+		// Forms that invoke other forms several times multiply: ten levels of
+		// three invocations each are 59049 executions of a few bytes of content.
+		maxXObjectCalls: 10000,
 	}
 }
 
@@ -172,6 +177,7 @@ func resolveIfRef(obj core.Object, resolver func(core.IndirectRef) (core.Object,
 // Extract extracts text fragments from parsed content stream operations.
 func (e *Extractor) Extract(operations []contentstream.Operation) ([]TextFragment, error) {
 	e.fragments = make([]TextFragment, 0)
+	e.xobjectCalls = 0
 
 	for i, op := range operations {
 		if err := e.processOperation(op); err != nil {
@@ -422,6 +428,13 @@ func (e *Extractor) invokeXObject(name string) error {
 	subtypeName, ok := subtype.(core.Name)
 	if !ok || string(subtypeName) != "Form" {
 		return nil // Not a Form XObject (might be Image)
+	}
+
+	// Bound the total work: the nesting limit alone does not stop forms that
+	// invoke each other repeatedly (a DAG of forms grows exponentially)
+	e.xobjectCalls++
+	if e.xobjectCalls > e.maxXObjectCalls {
+		return fmt.Errorf("too many Form XObject invocations (max %d)", e.maxXObjectCalls)
 	}
 
 	// Decode the XObject content stream
